@@ -34,7 +34,7 @@ class Job:
                  timeout=900, expect=(), reach=0, bounded=None, functions=(), files=(),
                  entry='harness', mem_gb=24, extra_cbmc=(), backend='idn2', note='',
                  no_dfcc=False, nondet_static=False, assumptions=(), finder=None,
-                 solvers=('cadical', 'minisat2'), extra_sources=(), replace_candidates=(),
+                 solvers=('cadical', 'minisat2'), extra_sources=(), replace_candidates=(), mem_est=3, pyfunc=None,
                  slice_formula=False):
         self.__dict__.update(locals())
         del self.__dict__['self']
@@ -158,6 +158,14 @@ def run_job(job, workdir, keep=False, extra_defs=(), trace_property=None):
     """build + verify one job; returns JobResult"""
     r = JobResult(job)
     os.makedirs(workdir, exist_ok=True)
+    if job.pyfunc:
+        t0 = time.time()
+        try:
+            job.pyfunc(job, r)
+        except Exception as e:
+            r.status = 'undecided'; r.reason = 'supporting check raised %r' % e
+        r.seconds['py'] = round(time.time() - t0, 2)
+        return r
     gb0 = os.path.join(workdir, job.name + '.0.gb')
     gb1 = os.path.join(workdir, job.name + '.1.gb')
     gb2 = os.path.join(workdir, job.name + '.2.gb')
@@ -242,7 +250,7 @@ def run_job(job, workdir, keep=False, extra_defs=(), trace_property=None):
     r.seconds['cbmc'] = round(s, 2); r.backend = 'cbmc 6.11 SAT/' + str(won)
     r.log = out if trace_property else ''
     if rc == -9:
-        r.reason = 'cbmc timeout after %ds' % job.timeout
+        r.reason = ('cbmc timeout after %ds' % job.timeout) if s >= job.timeout - 1 else 'cbmc was killed after %ds (out of memory?)' % int(s)
         return r
     results, status, msgs = parse_cbmc_json(out)
     if results is None:
